@@ -8,6 +8,7 @@ fn main() {
         Some("replay") => driver::replay_main(&args[1..]),
         Some("selftest") => scv::selftest::main(&args[1..]),
         Some("gen-c17-corpus") => scv::selftest::gen_c17_corpus(&args[1..]),
+        Some("fresh-conc") => scv::selftest::fresh_conc(&args[1..]),
         Some("fresh-seq") => scv::selftest::fresh_seq(&args[1..]),
         Some("gen-corpus") => scv::selftest::gen_corpus(&args[1..]),
         Some("gen-work-corpus") => scv::selftest::gen_work_corpus(&args[1..]),
